@@ -15,6 +15,7 @@ import ast
 
 import sympy as sp
 
+from ..core import spelling
 from ..core.astutil import norm, ParentMap
 from ..core.cfg import CFG
 from ..core.loader import walk_no_nested
@@ -86,7 +87,7 @@ def _module(prog, rep, modname):
             continue
         body = [s for s in g.node.body if not isinstance(s, (ast.If, ast.Return)) and not (isinstance(s, ast.Expr) and isinstance(s.value, ast.Constant))]
         env, vn = result_term(prog, g, body)
-        renv, _ = result_term(prog, g, ast.parse(ref).body, param_map={params[0]: g.params[0], params[1]: g.params[1]})
+        renv, _ = result_term(prog, g, spelling.parse(ref).body, param_map={params[0]: g.params[0], params[1]: g.params[1]})
         want = renv.get('C')
         # returns by tail
         gm = Matcher(prog, g)
